@@ -317,7 +317,7 @@ def run(ctx):
             for (inst, b, stt, fns, unk) in st.stores:
                 # every definition of the stored local
                 has_fallback = False
-                for (db, di, rv) in [(x, y, z) for l in _locals_feeding(inst, stt['args'][1]) for (x, y, z) in inst.assignments_to(l)]:
+                for (sel, db, di, rv) in _selection_sites(P, inst, stt['args'][1]):
                     if di == 'term' or rv['k'] != 'cast':
                         continue
                     f = None
@@ -332,7 +332,7 @@ def run(ctx):
                         rep.add('IFUNC-AVAIL/selected-under-guard', f"{inst.path} selects {fi.path}", True, where=rv.get('loc', inst.loc), cfg=cfg,
                                 detail='needs no feature beyond the configuration', nontrivial=False)
                         continue
-                    g = guarded_by_is_available(P, inst, db, need)
+                    g = guarded_by_is_available(P, sel, db, need)
                     ok = bool(g and miss <= g[1])
                     rep.add('IFUNC-AVAIL/selected-under-guard', f"{inst.path} selects {fi.path}", ok, where=inst.loc, cfg=cfg,
                             detail=(f"guarded by {g[0]} establishing {sorted(g[1])}" if g else 'not control-dependent on any is_available()')
@@ -378,6 +378,22 @@ def run(ctx):
     lanelaws.emit(rep, ctx, cfgs, PID)
     rep.extra['configs'] = cfgs
     return rep
+
+
+def _selection_sites(P, inst, op, depth=0):
+    """(function, block, index, rvalue) of every definition on the copy/cast chain feeding `op`; a call of a crate-local
+    helper on that chain (the ladder written as its own function) contributes the definitions feeding ITS return value"""
+    out = []
+    locs = _locals_feeding(inst, op) if isinstance(op, dict) else _locals_feeding(inst, {'k': 'copy', 'p': {'l': op, 'pr': []}})
+    for l in locs:
+        for (b, i, d) in inst.assignments_to(l):
+            if i == 'term' and depth < 3:
+                callee = P.instances.get(d['callee'].get('inst') or '')
+                if callee is not None and callee.local and callee.has_body:
+                    out += _selection_sites(P, callee, 0, depth + 1)
+                    continue
+            out.append((inst, b, i, d))
+    return out
 
 
 def _locals_feeding(inst, op, seen=None):
